@@ -422,10 +422,10 @@ def xstack (cfg : XCfg) (top : String) (layers : List J) : Except String J := do
       | .error _ => throw "original and extended model disagree (pack)"
     | _, _ => pure ans
 
-/-- the code variant the harness detected in the tree under test ({"cfg":{"rip_unsigned":b,"eap_body":b}}; absent = HEAD) -/
+/-- the code variant the harness detected in the tree under test ({"cfg":{"rip_unsigned":b,"eap_body":b}}; absent = /repo as committed) -/
 def cfgOf (j : J) : Except String XCfg :=
   match j.get? "cfg" with
-  | none => pure XCfg.head
+  | none => pure XCfg.repo
   | some c => do pure ⟨← c.boolean "rip_unsigned", ← c.boolean "eap_body"⟩
 
 def handle1 (j : J) : Except String J := do
